@@ -202,6 +202,39 @@ func runC03(rc *runCtx) *RunResult {
 		if c == d || a == b {
 			rc.inc("probe_degenerate_edge", 1)
 		}
+		// the shared-vertex rule on the quadruples the history visits: invariant under reversing
+		// either edge, and when exactly one vertex is shared exactly one of VC(ab,cd), VC(cd,ab) holds
+		if a != b && c != d && (a == c || a == d || b == c || b == d) {
+			vc := s2.VertexCrossing(a, b, c, d)
+			if s2.VertexCrossing(b, a, c, d) != vc || s2.VertexCrossing(a, b, d, c) != vc || s2.VertexCrossing(b, a, d, c) != vc {
+				res.Viol = &Violation{Kind: "vertex-crossing-not-symmetric", Site: "VertexCrossing",
+					Detail: fmt.Sprintf("step%d: VertexCrossing changes when an edge is reversed (a=%v b=%v c=%v d=%v)", i, a, b, c, d)}
+				res.Sig, res.Nontrivial = sig, true
+				return res
+			}
+			shared := 0
+			for _, x := range []s2.Point{a, b} {
+				for _, y := range []s2.Point{c, d} {
+					if x == y {
+						shared++
+					}
+				}
+			}
+			if shared == 1 {
+				rc.inc("probe_exactly_one_shared_vertex", 1)
+				if vc == s2.VertexCrossing(c, d, a, b) {
+					res.Viol = &Violation{Kind: "vertex-crossing-rule", Site: "VertexCrossing",
+						Detail: fmt.Sprintf("step%d: edges AB and CD share exactly one vertex, but VertexCrossing(a,b,c,d) == VertexCrossing(c,d,a,b) == %v: exactly one of the two must count as a crossing (a=%v b=%v c=%v d=%v)", i, vc, a, b, c, d)}
+					res.Sig, res.Nontrivial = sig, true
+					return res
+				}
+			} else if shared == 2 && !vc {
+				res.Viol = &Violation{Kind: "vertex-crossing-rule", Site: "VertexCrossing",
+					Detail: fmt.Sprintf("step%d: identical or reversed edges must count as crossing (a=%v b=%v c=%v d=%v)", i, a, b, c, d)}
+				res.Sig, res.Nontrivial = sig, true
+				return res
+			}
+		}
 		if isBool {
 			wantBool := s2.EdgeOrVertexCrossing(a, b, c, d)
 			if gotBool != wantBool {
